@@ -108,7 +108,9 @@ It is false of the code; `parse_render_partial` proves it for the documents sati
 
 Part of the documents the theorem speaks about (the AST has them, `meaning` says what the API shows):
   * blank lines of any blanks, comment lines (also with '=' in them), lines before the first section;
-  * LF and CR LF line ends, a final line without newline; any of four byte-order marks before the first line;
+  * LF and CR LF line ends, a final line without newline;
+  * any of four byte-order marks before the first line (`Style.bom`) and at the start of any other line — header, entry,
+    comment or blank line (`Line.mark` / `Header.mark`; files pasted together): it contributes nothing;
   * blanks around key, '=', value, section name; trailing comments; quoted values with comment markers, '=',
     the other quote, blanks inside (blanks directly inside the quotes are dropped: `" a "` is `a`); values with '=';
   * `key =` without any value text, also followed by a comment: the line assigns nothing (an empty value is
@@ -116,6 +118,9 @@ Part of the documents the theorem speaks about (the AST has them, `meaning` says
   * repeated section headers: a repeated header starts a section of its own; both are listed, under the same
     name, and look-ups by that name see one of them — `IniSpec.seenSec`, `repeated_header_not_merged`;
   * physical lines of up to 1024 bytes, line end and byte-order mark included.
+(`linesOk` also asks that a line without a mark does not start with the bytes of one, and that the first line has the
+file's mark or its own, not both.  The first is no restriction on files — those bytes *are* the line's mark —, the
+second is: only one mark per line is skipped, `only_one_mark_per_line_is_skipped`.)
 
 `WF` excludes exactly:
   * F3 (repaired in the worktree; the theorem needs `Generated.Ini.commentSkip = true`): a comment line
@@ -126,8 +131,8 @@ Part of the documents the theorem speaks about (the AST has them, `meaning` says
     `quoted_empty_quotes_are_emptied`; an unquoted value starting with a quote — `unquoted_leading_quote_is_stripped`;
   * keys starting with '[' (on a line ending in ']' they are taken for a header — `bracket_key_is_a_header`);
     section names with ']' — `section_name_is_cut_at_bracket`;
-  * NUL bytes; physical lines longer than 1024 bytes (split by `fgets` — `over_long_line_is_split`); a line that
-    starts with the bytes of a byte-order mark (the BOM test runs on every line); the UTF-32 LE mark (`utf32le_bom_dead`).
+  * NUL bytes; physical lines longer than 1024 bytes (split by `fgets` — `over_long_line_is_split`); two marks at the
+    start of one line (`only_one_mark_per_line_is_skipped`); the UTF-32 LE mark (`utf32le_bom_dead`).
 -/
 
 /-- For a well-formed document, rendered with any byte-order mark, the API shows exactly the documented
@@ -182,6 +187,20 @@ theorem parse_render_strict (σ : Style) (d : Doc) (hwf : WF σ d = true) (hst :
       simpa using this
     rw [listed_eq d initRev.reverse last hs, hm [last] (by intro s h; rw [hs]; simp at h; simp [h]),
       hm initRev.reverse (by intro s h; rw [hs]; simp at h; simp [h])]
+
+/-- `parse_render_partial` as it was stated before a byte-order mark was admitted at the start of every line: for a
+document without marks inside (`Unmarked`; the file's own mark `σ.bom` as before) the former hypotheses — `WF` with the
+former `linesOk`: every line fits the buffer and no line after the mark starts like one — are the present `WF`, and the
+conclusion is the same. -/
+theorem parse_render_unmarked (σ : Style) (d : Doc) (hu : Unmarked d = true)
+    (hwf : (d.preamble.all (·.body.wf) && d.secs.all (fun s => s.header.wf && s.body.all (·.body.wf))
+            && PV.IniSpec.eolsOk d.eols && formerLinesOk σ d) = true) :
+    WF σ d = true ∧ parseView (render σ d) = listed d := by
+  have h : WF σ d = true := by
+    unfold WF
+    rw [linesOk_unmarked σ d hu]
+    exact hwf
+  exact ⟨h, parse_render_partial σ d h⟩
 
 /-- Lookups: every key of the meaning is reported present and `p_ini_file_parameter_string` returns its
 value, whatever default is passed. -/
@@ -326,6 +345,13 @@ theorem repeated_header_not_merged :
     f = [⟨[98], [([120], [49])]⟩, ⟨[97], [([107], [49])]⟩, ⟨[97], [([106], [50])]⟩] ∧
     sections f = [[97], [97], [98]] ∧ keys f [97] = [[107]] ∧ findParameter f [97] [106] = none := by decide
 
+/-- `EF BB BF FE FF [s]␊k=v␊`: only one byte-order mark is skipped per line; behind a second one the header is not
+recognised and its keys are lost (`linesOk`: the first line has the file's mark or its own, not both) — while one mark
+at the start of *each* line is skipped (`[s]␊ FE FF k=v␊`) -/
+theorem only_one_mark_per_line_is_skipped :
+    parseWith true ([0xEF, 0xBB, 0xBF, 0xFE, 0xFF] ++ [91, 115, 93, 10, 107, 61, 118, 10]) = [] ∧
+    parseWith true ([91, 115, 93, 10] ++ [0xFE, 0xFF] ++ [107, 61, 118, 10]) = [⟨[115], [([107], [118])]⟩] := by decide
+
 /-! ## (e) the object: life cycle and NULL arguments -/
 
 /-- `p_ini_file_new (NULL)` is NULL; a new object is not parsed. -/
@@ -437,18 +463,18 @@ theorem strtod_trims (s : Bytes) :
 
 /-- ␣[ s ]␍␊ ; c = d␊ k = "v;1" # t␊ k='w'␊ e = ; n␊ f =␍␊ q=" a=b "␊ [e]␊ [t]␊ n = 42 (no final newline), with a UTF-8 BOM -/
 def sampleDoc : Doc :=
-  { preamble := [⟨.entry ⟨[], [120], [], [], .none, [49], [], none⟩, .lf⟩],
+  { preamble := [⟨.entry ⟨[], [120], [], [], .none, [49], [], none⟩, .lf, .none⟩],
     secs := [
-      ⟨⟨[32], [32], [115], [32], [], .crlf⟩,
-        [⟨.comment [] ⟨59, [32, 99, 32, 61, 32, 100]⟩, .lf⟩,
-         ⟨.entry ⟨[], [107], [32], [32], .double, [118, 59, 49], [32], some ⟨35, [32, 116]⟩⟩, .lf⟩,
-         ⟨.entry ⟨[], [107], [], [], .single, [119], [], none⟩, .lf⟩,
-         ⟨.entry ⟨[], [101], [32], [], .none, [], [32], some ⟨59, [32, 110]⟩⟩, .lf⟩,
-         ⟨.entry ⟨[], [102], [32], [], .none, [], [], none⟩, .crlf⟩,
-         ⟨.entry ⟨[], [113], [], [], .double, [32, 97, 61, 98, 32], [], none⟩, .lf⟩]⟩,
-      ⟨⟨[], [], [101], [], [], .lf⟩, []⟩,
-      ⟨⟨[], [], [116], [], [], .lf⟩,
-        [⟨.entry ⟨[], [110], [32], [32], .none, [52, 50], [], none⟩, .eof⟩]⟩] }
+      ⟨⟨[32], [32], [115], [32], [], .crlf, .none⟩,
+        [⟨.comment [] ⟨59, [32, 99, 32, 61, 32, 100]⟩, .lf, .none⟩,
+         ⟨.entry ⟨[], [107], [32], [32], .double, [118, 59, 49], [32], some ⟨35, [32, 116]⟩⟩, .lf, .none⟩,
+         ⟨.entry ⟨[], [107], [], [], .single, [119], [], none⟩, .lf, .none⟩,
+         ⟨.entry ⟨[], [101], [32], [], .none, [], [32], some ⟨59, [32, 110]⟩⟩, .lf, .none⟩,
+         ⟨.entry ⟨[], [102], [32], [], .none, [], [], none⟩, .crlf, .none⟩,
+         ⟨.entry ⟨[], [113], [], [], .double, [32, 97, 61, 98, 32], [], none⟩, .lf, .none⟩]⟩,
+      ⟨⟨[], [], [101], [], [], .lf, .none⟩, []⟩,
+      ⟨⟨[], [], [116], [], [], .lf, .none⟩,
+        [⟨.entry ⟨[], [110], [32], [32], .none, [52, 50], [], none⟩, .eof, .none⟩]⟩] }
 
 example : WF ⟨.utf8⟩ sampleDoc = true := by decide
 example : meaning sampleDoc = [([115], [([107], [119]), ([113], [97, 61, 98])]), ([116], [([110], [52, 50])])] := by decide
@@ -458,9 +484,9 @@ example : parseView (render ⟨.utf8⟩ sampleDoc) = [([116], [([110], [52, 50])
 def repeatedDoc : Doc :=
   { preamble := [],
     secs := [
-      ⟨⟨[], [], [97], [], [], .lf⟩, [⟨.entry ⟨[], [107], [], [], .none, [49], [], none⟩, .lf⟩]⟩,
-      ⟨⟨[], [], [98], [], [], .lf⟩, [⟨.entry ⟨[], [120], [], [], .none, [49], [], none⟩, .lf⟩]⟩,
-      ⟨⟨[], [], [97], [], [], .lf⟩, [⟨.entry ⟨[], [106], [], [], .none, [50], [], none⟩, .lf⟩]⟩] }
+      ⟨⟨[], [], [97], [], [], .lf, .none⟩, [⟨.entry ⟨[], [107], [], [], .none, [49], [], none⟩, .lf, .none⟩]⟩,
+      ⟨⟨[], [], [98], [], [], .lf, .none⟩, [⟨.entry ⟨[], [120], [], [], .none, [49], [], none⟩, .lf, .none⟩]⟩,
+      ⟨⟨[], [], [97], [], [], .lf, .none⟩, [⟨.entry ⟨[], [106], [], [], .none, [50], [], none⟩, .lf, .none⟩]⟩] }
 
 example : WF ⟨.none⟩ repeatedDoc = true := by decide
 example : meaning repeatedDoc = [([97], [([107], [49])]), ([98], [([120], [49])]), ([97], [([107], [49])])] := by decide
@@ -475,6 +501,34 @@ example : parameterString (parse (render ⟨.utf8⟩ sampleDoc)) [115] [113] non
 example : Strict { sampleDoc with secs := sampleDoc.secs.drop 1 } = true := by decide
 example : parseView (render ⟨.none⟩ { sampleDoc with secs := sampleDoc.secs.drop 1 }) = [([116], [([110], [52, 50])])] :=
   (parse_render_strict ⟨.none⟩ { sampleDoc with secs := sampleDoc.secs.drop 1 } (by decide) (by decide)).2
+/-- [s]␊ FE FF k = v␊ EF BB BF ; c␊ FF FE ␣␊ 00 00 FE FF [t]␊ EF BB BF j=1 (no final newline): a mark before an entry, a
+comment line, a blank line, a header and the last line -/
+def markedDoc : Doc :=
+  { preamble := [],
+    secs := [
+      ⟨⟨[], [], [115], [], [], .lf, .none⟩,
+        [⟨.entry ⟨[], [107], [32], [32], .none, [118], [], none⟩, .lf, .utf16be⟩,
+         ⟨.comment [] ⟨59, [32, 99]⟩, .lf, .utf8⟩,
+         ⟨.blank [32], .lf, .utf16le⟩]⟩,
+      ⟨⟨[], [], [116], [], [], .lf, .utf32be⟩,
+        [⟨.entry ⟨[], [106], [], [], .none, [49], [], none⟩, .eof, .utf8⟩]⟩] }
+
+example : WF ⟨.utf8⟩ markedDoc = true := by decide
+example : Unmarked markedDoc = false := by decide
+example : render ⟨.none⟩ markedDoc = [91, 115, 93, 10, 0xFE, 0xFF, 107, 32, 61, 32, 118, 10, 0xEF, 0xBB, 0xBF, 59, 32, 99, 10,
+    0xFF, 0xFE, 32, 10, 0, 0, 0xFE, 0xFF, 91, 116, 93, 10, 0xEF, 0xBB, 0xBF, 106, 61, 49] := by decide
+example : meaning markedDoc = [([115], [([107], [118])]), ([116], [([106], [49])])] := by decide
+example : parseView (render ⟨.utf8⟩ markedDoc) = [([116], [([106], [49])]), ([115], [([107], [118])])] :=
+  parse_render_partial ⟨.utf8⟩ markedDoc (by decide)
+example : (parseView (render ⟨.none⟩ markedDoc)).Perm (meaning markedDoc) := parse_render_perm _ _ (by decide)
+example : parameterString (parse (render ⟨.none⟩ markedDoc)) [116] [106] none = some [49] :=
+  (lookup_render ⟨.none⟩ markedDoc (by decide) [116] [([106], [49])] (by decide) [106] [49] (by decide) none).2.2
+/-- the first line carries the file's mark or its own, not both: the second one would not be skipped -/
+example : WF ⟨.utf8⟩ { markedDoc with secs := markedDoc.secs.drop 1 } = false := by decide
+example : WF ⟨.none⟩ { markedDoc with secs := markedDoc.secs.drop 1 } = true := by decide
+example : Unmarked sampleDoc = true := by decide
+example : parseView (render ⟨.utf8⟩ sampleDoc) = listed sampleDoc :=
+  (parse_render_unmarked ⟨.utf8⟩ sampleDoc (by decide) (by decide)).2
 example : (parse f3Input = []) := by decide
 example : atoi [32, 45, 49, 50, 120] = .val (-12) := by decide
 example : atoi [50, 49, 52, 55, 52, 56, 51, 54, 52, 56] = .overflow := by decide
